@@ -61,29 +61,52 @@ def match_known(known, pid, v):
     return None
 
 
+def prepare_run(pid, run, engine):
+    """Resolve harness files (generating codec harnesses from /repo's current source where asked)."""
+    files = [h if os.path.isabs(h) else os.path.join(VERIF, h) for h in run.get("harness", [])]
+    gen = run.get("gen")
+    if gen:
+        d = os.path.join(VERIF, "replays", pid)
+        os.makedirs(d, exist_ok=True)
+        out = os.path.join(d, "gen_%s.go" % run["pkg"].replace("/", "_"))
+        cmd = [engine, "-repo", REPO, "-pkg", run["pkg"], "-gencodecs", out, "-genskip", ",".join(gen.get("skip", []))]
+        if gen.get("support"):
+            cmd += ["-gensupport", os.path.join(VERIF, gen["support"])]
+        r = subprocess.run(cmd, capture_output=True, text=True, env=goenv())
+        if r.returncode != 0:
+            raise RuntimeError("codec harness generation failed: " + r.stderr[-800:])
+        files = [out] + files
+        if gen.get("support"):
+            files.append(os.path.join(VERIF, gen["support"]))
+    inject = [(p, f if os.path.isabs(f) else os.path.join(VERIF, f)) for p, f in run.get("inject", [])]
+    return files, inject
+
+
 def native_replay(pid, run, v, idx, params):
     """Replay a counterexample against the real build. Returns (path, outcome)."""
     d = os.path.join(VERIF, "replays", pid)
     os.makedirs(d, exist_ok=True)
     path = os.path.join(d, "%s-%d.json" % (v["harness"], idx))
-    rec = {"property": pid, "harness": v["harness"], "pkg": run["pkg"], "harness_files": run["harness"],
+    rec = {"property": pid, "harness": v["harness"], "pkg": run["pkg"], "harness_files": run["_files"], "inject": run["_inject"],
            "kind": v["kind"], "msg": v["msg"], "site": v["site"], "model": v["model"], "params": params,
            "decision_path": v.get("path"), "solver_status": v.get("status")}
     json.dump(rec, open(path, "w"), indent=1)
-    outcome = run_native(run["pkg"], run["harness"], v["harness"], path)
+    outcome = run_native(run["pkg"], run["_files"], v["harness"], path, inject=run["_inject"])
     rec["native_outcome"] = outcome
     json.dump(rec, open(path, "w"), indent=1)
     return path, outcome
 
 
-def run_native(pkg, harness_files, fn, vecpath, seed=None, timeout=600, seeds=None):
+def run_native(pkg, harness_files, fn, vecpath, seed=None, timeout=600, seeds=None, inject=None):
     """fn: harness name (replay) or list of names with seeds=[...] (translator validation; returns dict)."""
     tmp = tempfile.mkdtemp(prefix="vhreplay-")
     try:
         ov = {"Replace": {}}
         ov["Replace"][os.path.join(REPO, "internal/vh/vh.go")] = os.path.join(VERIF, "vh/native/vh.go")
         for h in harness_files:
-            ov["Replace"][os.path.join(REPO, pkg, "zz_vh_" + os.path.basename(h))] = os.path.join(VERIF, h)
+            ov["Replace"][os.path.join(REPO, pkg, "zz_vh_" + os.path.basename(h))] = h if os.path.isabs(h) else os.path.join(VERIF, h)
+        for pdir, f in (inject or []):
+            ov["Replace"][os.path.join(REPO, pdir, "zz_vh_" + os.path.basename(f))] = f if os.path.isabs(f) else os.path.join(VERIF, f)
         pkgname = None
         for l in open(os.path.join(VERIF, harness_files[0])):
             m = re.match(r"package\s+(\w+)", l)
@@ -130,12 +153,14 @@ def outcome_confirms(v, outcome):
         return outcome.startswith("assert-failed")
     if v["kind"] == "panic":
         return outcome.startswith("panic")
+    if v["kind"] == "alloc":
+        return outcome.startswith("panic") or "out of memory" in outcome
     return False
 
 
 def replay_cmd(path):
     rec = json.load(open(path))
-    out = run_native(rec["pkg"], rec["harness_files"], rec["harness"], path)
+    out = run_native(rec["pkg"], rec["harness_files"], rec["harness"], path, inject=rec.get("inject"))
     print("replay %s: %s (expected %s: %s)" % (path, out, rec["kind"], rec["msg"]))
     return 1 if outcome_confirms(rec, out) else 0
 
@@ -173,8 +198,17 @@ def main():
                 continue
             params = dict(run.get("params", {}).get(tier, {}))
             out = os.path.join(tmpdir, "run%d.json" % ri)
-            cmd = [engine, "-repo", REPO, "-pkg", run["pkg"], "-harness", ",".join(os.path.join(VERIF, h) for h in run["harness"]),
+            try:
+                run["_files"], run["_inject"] = prepare_run(pid, run, engine)
+            except RuntimeError as ex:
+                engine_errors.append(str(ex))
+                continue
+            cmd = [engine, "-repo", REPO, "-pkg", run["pkg"], "-harness", ",".join(run["_files"]),
                    "-run", run.get("run", "^VH_"), "-out", out, "-j", jobs]
+            if run.get("skip"):
+                cmd += ["-skip", run["skip"]]
+            if run["_inject"]:
+                cmd += ["-inject", ",".join("%s=%s" % pf for pf in run["_inject"])]
             if params:
                 cmd += ["-p", ",".join("%s=%d" % kv for kv in params.items())]
             cmd += run.get("flags", {}).get(tier, [])
@@ -183,7 +217,7 @@ def main():
                 engine_errors.append("run %d: exit %d: %s" % (ri, r.returncode, r.stderr[-1500:]))
                 continue
             res = json.load(open(out))
-            runs_meta.append({"pkg": run["pkg"], "harness_files": run["harness"], "params": params, "flags": run.get("flags", {}).get(tier, []),
+            runs_meta.append({"pkg": run["pkg"], "harness_files": [os.path.relpath(f, VERIF) for f in run["_files"]], "params": params, "flags": run.get("flags", {}).get(tier, []),
                               "load_s": res["load_s"], "wall_s": res["wall_s"], "solver": res["solver"]})
             for e in res.get("errors") or []:
                 engine_errors.append(e)
@@ -216,8 +250,8 @@ def main():
     for run in spec["runs"]:
         if tier == "quick" and run.get("thorough_only"):
             continue
-        if ntv and run.get("tv_harnesses"):
-            outs = run_native(run["pkg"], run["harness"], run["tv_harnesses"], None, seeds=[seed * 1000 + k for k in range(ntv)])
+        if ntv and run.get("tv_harnesses") and "_files" in run:
+            outs = run_native(run["pkg"], run["_files"], run["tv_harnesses"], None, seeds=[seed * 1000 + k for k in range(ntv)], inject=run["_inject"])
             for name, out in outs.items():
                 tv += 1
                 out = out.strip()
